@@ -29,7 +29,7 @@ impl AHist {
     }
     /// script item carrying a frame
     pub fn frame_item(&self, snr: i8, bytes: &[u8], hint: Option<u32>) -> String {
-        let view = view_of(bytes, &self.nwk, &self.app, &ROOT_KEY, hint).replace(' ', "/");
+        let view = view_of(bytes, Some(self.devaddr), &self.nwk, &self.app, &ROOT_KEY, hint).replace(' ', "/");
         format!("R{}/{}/{}", snr, hex(bytes), view)
     }
     pub fn auth_item(&mut self, snr: i8, gap: u32, confirmed: bool, fopts: &[u8], fport: Option<u8>, payload: &[u8]) -> String {
@@ -321,7 +321,12 @@ pub fn gen_random_dev_history(suite: &str, region: &str, rng: &mut Rng) -> Strin
                 4 => {
                     // builder X — an uplink-typed frame of this session (the echo of an uplink): Dir = 0 MIC under
                     // the session key at the next fresh downlink counter; not a frame for an end-device
-                    let (b, f) = uplink_typed_frame(rng, h.devaddr, &h.nwk, &h.app, region, h.last_down);
+                    // (builder Y: or a downlink addressed to another DevAddr under the session's own keys)
+                    let (b, f) = if rng.chance(1, 2) {
+                        uplink_typed_frame(rng, h.devaddr, &h.nwk, &h.app, region, h.last_down)
+                    } else {
+                        other_devaddr_frame(rng, h.devaddr, &h.nwk, &h.app, region, h.last_down)
+                    };
                     script.push(h.frame_item(rng.range(-20, 20) as i8, &b, Some(f)));
                 }
                 _ => script.push("O".to_string()),
@@ -526,7 +531,12 @@ pub fn gen_nb_random_history(suite: &str, region: &str, rng: &mut Rng) -> String
             }
             7 if rng.chance(1, 2) => {
                 // builder X — an uplink-typed frame of this session (the echo of an uplink)
-                let (b, f) = uplink_typed_frame(rng, h.a.devaddr, &h.a.nwk, &h.a.app, region, h.a.last_down);
+                // (builder Y: or a downlink addressed to another DevAddr under the session's own keys)
+                let (b, f) = if rng.chance(1, 2) {
+                    uplink_typed_frame(rng, h.a.devaddr, &h.a.nwk, &h.a.app, region, h.a.last_down)
+                } else {
+                    other_devaddr_frame(rng, h.a.devaddr, &h.a.nwk, &h.a.app, region, h.a.last_down)
+                };
                 h.rx_bytes_hint(rng.range(-20, 20) as i8, &b, Some(f));
             }
             6 => {
@@ -1639,7 +1649,12 @@ pub fn gen_dev_listen(suite: &str, region: &str, rng: &mut Rng) -> String {
                 }
                 6 if rng.chance(1, 2) => {
                     // builder X — an uplink-typed frame of this session heard while listening
-                    let (b, f) = uplink_typed_frame(rng, h.devaddr, &h.nwk, &h.app, region, h.last_down);
+                    // (builder Y: or a downlink addressed to another DevAddr under the session's own keys)
+                    let (b, f) = if rng.chance(1, 2) {
+                        uplink_typed_frame(rng, h.devaddr, &h.nwk, &h.app, region, h.last_down)
+                    } else {
+                        other_devaddr_frame(rng, h.devaddr, &h.nwk, &h.app, region, h.last_down)
+                    };
                     script.push(h.frame_item(rng.range(-20, 20) as i8, &b, Some(f)));
                 }
                 _ => script.push("O".into()),
